@@ -129,6 +129,13 @@ def cursor_rule(ctx):
     idx_w = set(x.split("::")[-1] for x in w.get("cur_index", {}))
     line_w = set(x.split("::")[-1] for x in w.get("line", {}))
     lonely = sorted(idx_w - line_w)
+    # a private helper that only adds to index and column is fine when every method that calls it keeps the line itself
+    for nm in list(lonely):
+        callers = set(b["root"].split("::")[-1] for b in ctx.mir.by_crate.get("glass_easel_template_compiler", [])
+                      if b["root"].startswith("parse::ParseState::") and any(sir.norm_mir_name(c["callee"]) == "parse::ParseState::" + nm for c in b["calls"]))
+        callers.discard(nm)
+        if callers and callers <= line_w:
+            lonely.remove(nm)
     obs.append(ob("C16.cursor/discipline/index-with-line", bool(idx_w) and not lonely, "parse/mod.rs",
                   "every method that writes the byte index also maintains the line counter (%s)" % sorted(idx_w) if not lonely else "%s move(s) the byte index without ever touching the line counter" % lonely,
                   witness=None if not lonely else "{{ a /* two\nlines */ + }}: the diagnostic is reported on the line where the comment began, past the end of that line"))
